@@ -18,13 +18,13 @@ open Acra.Py Acra.Model.Ch10UDP Acra.Gen.Ch10UDP Acra.Lemmas.Ch10UDP Acra.Lemmas
 example : WF1 { fresh with sequence := 0xABCDEF, payload := [1, 2, 3] } := by
   simp [WF1, fresh, DEFAULT_VERSION, TYPE_FULL]
 example : WF1seg { fresh with type := 1, sequence := 5, channelID := 0x1234, channelsequence := 9, segmentoffset := 70000 } := by
-  simp [WF1seg, DEFAULT_VERSION]
+  simp [WF1seg, fresh, DEFAULT_VERSION]
 example : WF2 { fresh with version := 2, type := 3, sequence := 0xA2CDEF, segmentoffset := 0x123456, channelID := 7,
                            payload := [1, 2, 3, 4, 5] } := by
-  simp [WF2, fresh]
+  simp [WF2]
 example : WF3 { fresh with version := 3, sourceid_len := 3, sourceid := 0x5A5, sequence := 0xFFFFF,
                            offset_pkt_start := some 12 } 12 := by
-  simp [WF3, fresh]
+  simp [WF3]
 
 /-- format 1, full packet: `pack` emits the Spec layout and changes no field -/
 theorem udp_fmt1_pack_layout (s : State) (h : WF1 s) :
